@@ -510,12 +510,20 @@ pub fn gen_lookup_family(rng: &mut ChaCha8Rng, cols: usize, pis: usize, degree: 
     let filter_col = cols - 1;
     // boolean filter column, constrained to be boolean on every row
     spec.cons.push(Cons { kind: Kind::All, poly: vec![Mono { c: 1, f: vec![Term::L(filter_col), Term::L(filter_col)] }, Mono { c: neg(1), f: vec![Term::L(filter_col)] }], what: format!("local[{filter_col}] boolean (lookup filter)") });
+    // all decisions that shape the DEFINITION are drawn before any trace value, so that the same
+    // generator state yields the same definition for every trace length
+    let mut plans: Vec<(u32, Vec<(u32, u64, u64)>)> = vec![];
+    for (_, _, lcols) in groups.iter() {
+        let style = rng.gen_range(0..3);
+        let per_col: Vec<(u32, u64, u64)> = lcols.iter().map(|_| (rng.gen_range(0..4), rng.gen_range(1..1000u64), gen::canon_u64(rng, &bset))).collect();
+        plans.push((style, per_col));
+    }
     for r in 0..n {
         trace[filter_col][r] = rng.gen_range(0..2);
     }
     for (gi, (tcol, fcol, lcols)) in groups.iter().enumerate() {
         // table values: a range, small values with repeats, or boundary-biased values
-        let style = rng.gen_range(0..3);
+        let style = plans[gi].0;
         for r in 0..n {
             trace[*tcol][r] = match style {
                 0 => r as u64,
@@ -530,12 +538,10 @@ pub fn gen_lookup_family(rng: &mut ChaCha8Rng, cols: usize, pis: usize, degree: 
         let mut k = 0;
         while k < lcols.len() {
             let c = lcols[k];
-            let kind = rng.gen_range(0..4);
+            let (kind, coeff, constant) = plans[gi].1[k];
             if kind == 1 && k + 1 < lcols.len() {
                 // linear combination a + coeff*b + constant over two columns
                 let b = lcols[k + 1];
-                let coeff = rng.gen_range(1..1000u64);
-                let constant = gen::canon_u64(rng, &bset);
                 for r in 0..n {
                     let t = pick(rng);
                     let vb = rng.gen_range(0..1u64 << 16);
